@@ -64,7 +64,8 @@ func classify(text string, null bool) rcell {
 		case f*2 == math.Trunc(f*2) && math.Abs(f) < (1<<28):
 			c.HasF, c.F2 = true, int64(f*2)
 		default:
-			core.Fail("generator produced a number outside the half-unit repertoire: %q", text)
+			// outside the half-unit repertoire (only results of computed columns): no numeric attributes claimed
+			c.HasF, c.Fk = true, "odd"
 		}
 	}
 	if b, err := strconv.ParseBool(t); err == nil {
@@ -82,8 +83,16 @@ func classify(text string, null bool) rcell {
 }
 
 // rankStrings assigns ur = rank of the upper-cased trimmed text in byte order, over all given rows.
-func rankStrings(tables ...[][]rcell) {
+func rankStrings(tables ...[][]rcell) { rankStringsL(nil, tables...) }
+
+// rankStringsL also ranks literal cells referenced from condition trees.
+func rankStringsL(lits []*rcell, tables ...[][]rcell) {
 	set := map[string]bool{}
+	for _, c := range lits {
+		if c.IsS {
+			set[c.u] = true
+		}
+	}
 	for _, t := range tables {
 		for _, r := range t {
 			for _, c := range r {
@@ -109,6 +118,11 @@ func rankStrings(tables ...[][]rcell) {
 					r[k].Ur = rank[r[k].u]
 				}
 			}
+		}
+	}
+	for _, c := range lits {
+		if c.IsS {
+			c.Ur = rank[c.u]
 		}
 	}
 }
